@@ -599,6 +599,9 @@ def c15(tier, seed, only=None):
         jobs.append(job(s, cfg, mons))
     for s in gen.f1_all(2):
         jobs.append(job(s, dict(horizon=40), mons))
+    # accepted definitions whose expressions fail (or yield the wrong type) only at run time
+    for s in gen.fx_all(tier):
+        jobs.append(job(s, dict(horizon=40, render=True, dev=2), mons))
     jobs = _filter(jobs, only)
     results = runner.run_jobs(jobs, seed=seed)
     # completeness half: single-fault mutants
@@ -621,7 +624,7 @@ def c15(tier, seed, only=None):
             v["confirmed"] = True
             extra_v.append(v)
     rule = (
-        "soundness: exception monitor over explorations of every accepted F1/F2/F4/F5 definition "
+        "soundness: exception monitor over explorations of every accepted F1/F2/F4/F5/FX definition "
         "(dispatch/complete x outcomes, pause/resume/cancel/rerun, deviation-bounded); completeness: every "
         "single-fault mutant (undefined target, reserved task name, no start task, broken YAQL/Jinja grammar "
         "and unassigned ctx variable in 7 documented forms at every action/input/when/publish/vars/output "
